@@ -17,7 +17,8 @@ RULE = ("exhaustive: every (y_true,y_pred) in {neg,pos}^n x {neg,pos}^n for n<=N
         "each of 10 label encodings ({0,1},{-1,1},bool,float,two ints/strings with pos_label = either class, "
         "explicit pos_label 0/1), container rotating over list/ndarray/Series(hostile index)/(n,1); random: "
         "n<=30 with positive weights (int, real, tiny, huge, mixed). Oracle = row counting (refs/rates.py). "
-        "distinct = distinct (encoding, n, unweighted TP/FP/TN/FN, weighted?, container); every case is "
+        "icontract postconditions (scalar, range) on the seven public functions are active during the workload and while the "
+        "repository's own metric tests run as extra traffic (class repo_tests). distinct = distinct (encoding, n, unweighted TP/FP/TN/FN, weighted?, container); every case is "
         "non-trivial (the property covers single-valued and length-1 vectors).")
 ASSUMPTIONS = ["weights strictly positive and finite", "labels take at most the two values of the encoding",
                "mean_prediction only on numeric encodings"]
@@ -39,6 +40,12 @@ ENCODINGS = [
 CONTAINERS = ["list", "ndarray", "series", "col"]
 
 
+def setup(tier, seed):
+    from vf.monitors import contracts
+
+    contracts.attach()
+
+
 def cases(tier, seed):
     nmax = 4 if tier == "quick" else 6
     out = []
@@ -48,6 +55,7 @@ def cases(tier, seed):
                 out.append(("exh", [e, n, code]))
     nrand = 1500 if tier == "quick" else 100000
     out += [("rand_weighted", i) for i in range(nrand)]
+    out += [("repo_tests", ["test/unit/metrics/test_base_metrics.py"] if tier == "quick" else ["test/unit/metrics"])]
     return out
 
 
@@ -64,6 +72,10 @@ def _decode(n, code):
 def run_case(cls, key, seed, ctx):
     import fairlearn.metrics as M
 
+    from vf.monitors import contracts
+
+    if cls == "repo_tests":
+        return contracts.repo_tests_case(ctx, "C14:", key)
     rng = rng_for(seed, ID, cls, key)
     if cls == "exh":
         e, n, code = key
@@ -156,6 +168,7 @@ def run_case(cls, key, seed, ctx):
     c = M.count(cyt, cyp)
     ctx.ev("aux_metric_checks")
     ctx.check(is_scalar_number(c) and int(c) == n, "count_mismatch", got=repr(c), n=n)
+    contracts.flush_into(ctx, "C14:")
 
 
 def jn(d):
